@@ -91,3 +91,23 @@ Definition srt_merge (caps : list caption) : list caption :=
   end.
 
 Definition span_of (c : caption) : Q * Q := (c_start c, c_end c).
+
+(* ---- pre-fix variants, kept on record (not used by the oracle) ---------------------------- *)
+(* before `fix: SAMI writer wrote start="1000.0" ...`: time = caption.start // 1000 is a float for a
+   float time and is printed as such *)
+Definition sami_token_unfixed (t : Q) : str :=
+  if Qeq_bool t (inject_Z (Qfloor t)) && Pos.eqb (Qden t) 1   (* a Python int *)
+  then dec_z (sami_ms t) else dec_z (sami_ms t) ++ lit ".0".
+
+(* before `fix: SAMI writer omitted the blank sync after a cue ending in millisecond 0`:
+   `if self.last_time and time != self.last_time` *)
+Fixpoint sami_events_unfixed (caps : list (Q * Q)) (last : option Z) (i : nat) : list sev :=
+  match caps with
+  | [] => []
+  | (s, e) :: t =>
+      let time := sami_ms s in
+      (match last with
+       | Some l => if negb (l =? 0) && negb (time =? l) then [SBlank l] else []
+       | None => []
+       end) ++ SCue time i :: sami_events_unfixed t (Some (sami_ms e)) (S i)
+  end.
